@@ -341,7 +341,50 @@ def sampleFS : Wz.Model.RefFS.FS := ((Wz.Model.RefFS.FS.init false).pathOpen 3 [
 
 example : ∃ id d, sampleFS.desc 4 = .ok (id, d) ∧ d.isDir = false ∧ d.canWrite = true ∧ d.canRead = true ∧
     (sampleFS.node d.ino).isSome = true :=
-  ⟨4, { ino := 1, offset := 0, append := false, canRead := true, canWrite := true, isDir := false }, by
+  ⟨4, { ino := 1, offset := 0, append := false, canRead := true, canWrite := true, isDir := false, name := ["a"] }, by
     refine ⟨?_, rfl, rfl, rfl, ?_⟩ <;> rfl⟩
+
+
+/-! ## (4) directory changes are visible to later lookups: descriptors denote directories, not names -/
+
+open Wz.Model.RefFS in
+/-- the history of finding F24: mkdir a; open a → 4; rename a → b -/
+def f24History (byName : Bool) : FS :=
+  let fs0 := FS.init false byName
+  let fs1 := (fs0.mkdir 3 ["a"]).1
+  let fs2 := (fs1.pathOpen 3 ["a"]
+    { creat := false, directory := true, excl := false, trunc := false, append := false, rightRead := true, rightWrite := false }).1
+  (fs2.rename 3 ["a"] 3 ["b"]).1
+
+open Wz.Model.RefFS in
+/-- `dirfd_follows_rename` (repaired variant, `byName = false`): a rename changes neither the descriptor
+table nor the open descriptions, and a path relative to a directory descriptor starts from the directory the
+descriptor denotes — whatever that directory is called now. -/
+theorem dirfd_follows_rename (fs : FS) (h : fs.byName = false) (f1 f2 : Int) (c1 c2 : List String)
+    (fd : Int) (comps : List String) :
+    (fs.rename f1 c1 f2 c2).1.atPath fd comps = fs.atPath fd comps ∧
+    (∀ id d, fs.desc fd = .ok (id, d) → d.isDir = true → fs.atPath fd comps = .ok (d.ino, comps)) := by
+  constructor
+  · have key : (fs.rename f1 c1 f2 c2).1.ctx = fs.ctx ∧ (fs.rename f1 c1 f2 c2).1.descs = fs.descs ∧
+        (fs.rename f1 c1 f2 c2).1.byName = fs.byName := by
+      unfold FS.rename
+      repeat' split
+      all_goals (try exact ⟨rfl, rfl, rfl⟩)
+      all_goals (simp only [FS.setNode]; repeat' split)
+      all_goals exact ⟨rfl, rfl, rfl⟩
+    unfold FS.atPath FS.desc
+    rw [key.1, key.2.1, key.2.2]
+  · intro id d hd hdir
+    unfold FS.atPath
+    rw [hd]
+    simp [hdir, h]
+
+open Wz.Model.RefFS in
+/-- F24 (witness, pinned tree `byName = true`): after `mkdir a; open a → 4; rename a b`, creating `x`
+through descriptor 4 fails with ENOENT, while in the repaired variant it succeeds and `b/x` exists. -/
+theorem dirfd_rename_witness :
+    ((f24History true).mkdir 4 ["x"]).2 = .noent ∧
+    ((f24History false).mkdir 4 ["x"]).2 = .ok ∧
+    (((f24History false).mkdir 4 ["x"]).1.pathStat 3 ["b", "x"]).1 = .ok := by decide
 
 end Wz.C16
